@@ -144,6 +144,7 @@ class ScriptedBackend : public FlatBackend< MIPBackend<ScriptedBackend> > {
   ALLOW_STD_FEATURE(VAR_PRIORITIES, true)
   ALLOW_STD_FEATURE(LAZY_USER_CUTS, true)
   ALLOW_STD_FEATURE(IIS, true)
+  ALLOW_STD_FEATURE(RAYS, true)
   ALLOW_STD_FEATURE(RETURN_MIP_GAP, true)
   ALLOW_STD_FEATURE(RETURN_BEST_DUAL_BOUND, true)
 
@@ -205,6 +206,19 @@ class ScriptedBackend : public FlatBackend< MIPBackend<ScriptedBackend> > {
     auto mv = GetValuePresolver().PresolveLazyUserCutFlags({ {}, lazy });
     g_calls.push_back("{\"op\":\"MarkLazyOrUserCuts\",\"in\":" + jv(lazy) + ",\"cons\":" + jmap(mv.GetConValues()) + "}");
   }
+  // rays (script key rays=1): all-ones vectors; every request is recorded
+  ArrayRef<double> Ray() override {
+    g_calls.push_back("{\"op\":\"Ray\"}");
+    if (sget("rays", "none") == "none") return {};
+    ray_.assign(nvars(), 1.0); auto mv = GetValuePresolver().PostsolveSolution({ ray_ }); return mv.GetVarValues()();
+  }
+  ArrayRef<double> DRay() override {
+    g_calls.push_back("{\"op\":\"DRay\"}");
+    if (sget("rays", "none") == "none") return {};
+    std::map<int, std::vector<double>> cm; cm[CG_Linear] = std::vector<double>(count_group(CG_Linear), 1.0);
+    pre::ValueMapDbl y{cm}; auto mv = GetValuePresolver().PostsolveSolution({ {}, y }); return mv.GetConValues()();
+  }
+  std::vector<double> ray_;
   void ComputeIIS() override { }
   IIS GetIIS() override {
     if (sget("iis", "none") == "none") return {};
